@@ -43,7 +43,7 @@ func transportWrites(fn *ssa.Function) []*ssa.Call {
 
 func runC15(c *Ctx) {
 	P, R := c.P, c.R
-	R.Require("C15.lock", 9)
+	R.Require("C15.lock", 5)
 	R.Require("C15.atomic", 4)
 	R.Require("C15.latch", 4)
 	R.Require("C15.own", 4)
@@ -227,6 +227,13 @@ func runC15(c *Ctx) {
 				if a.Op != "==" || a.R != "nil" {
 					continue
 				}
+				if addr, isGetter := core.GetterLoad(a.LV); isGetter {
+					// x.get() where get only returns the field (extracted read)
+					if core.TypedPath(addr) == "Conn.writeErr" && li.HeldAt(core.StripConv(a.LV).(*ssa.Call))[mu] {
+						okGuard = true
+					}
+					continue
+				}
 				ld, isLoad := a.LV.(*ssa.UnOp)
 				if !isLoad || ld.Op != token.MUL || core.TypedPath(ld.X) != "Conn.writeErr" {
 					continue
@@ -243,7 +250,7 @@ func runC15(c *Ctx) {
 		var latch *ssa.Call
 		core.EachInstr(fn, func(in ssa.Instruction) {
 			call, ok := in.(*ssa.Call)
-			if !ok || call.Call.StaticCallee() == nil || call.Call.StaticCallee().Name() != "writeFatal" || len(call.Call.Args) < 2 {
+			if !ok || call.Call.StaticCallee() == nil || core.FnName(call.Call.StaticCallee()) != "writeFatal" || len(call.Call.Args) < 2 {
 				return
 			}
 			if core.Path(call.Call.Args[1]) == "websocket.ErrCloseSent" {
@@ -284,7 +291,7 @@ func runC15(c *Ctx) {
 	}
 
 	// ---- C15.own
-	checkConnOwn(c, conn.Obj().Name())
+	checkConnOwn(c, core.TypeNameOf(conn.Obj()))
 }
 
 func reaches(a, b ssa.Instruction) bool {
